@@ -275,7 +275,23 @@ def c15_iters(kw):
             return True if same_seq(tree.leaf_nodes(), exp) else "tree:leaf_nodes"
         if kind == "leaf_edges":
             return True if same_seq(heads(tree.leaf_edges()), exp) else "tree:leaf_edges"
-        return True if len(tree) == len(exp) else "tree:len"
+        if len(tree) != len(exp):
+            return "tree:len"
+        if flag1:
+            # the same after a history: encode, then edit without re-encoding (no cached leaf count may be used)
+            tree.encode_bipartitions()
+            leaves = [x for x in tg.reachable(tree) if not x._child_nodes]
+            if len(tree) != len(leaves):
+                return "tree:len-after-encoding"
+            victim = leaves[-1]
+            if flag2 and victim._parent_node is not None:
+                victim._parent_node.remove_child(victim)
+            else:
+                victim.new_child()
+                victim.new_child()
+            if len(tree) != len([x for x in tg.reachable(tree) if not x._child_nodes]):
+                return "tree:len-stale-after-edit"
+        return True
     if kind == "e_pre":
         return True if same_seq(heads(tree.preorder_edge_iter(efilter)), keep(sub)) else "tree:e_pre"
     if kind == "e_post":
